@@ -1,3 +1,48 @@
 // harnesses mounted as child module of agdb/src/storage.rs
 #[allow(unused_imports)]
 use super::*;
+
+use crate::verif_support::{ArrStorage, ok};
+
+/// Builds a `Storage` directly (skips `read_records`): version record only.
+pub(crate) fn raw_storage<D: StorageData>(data: D) -> Storage<D> {
+    Storage {
+        data,
+        records: StorageRecords::new(),
+        transactions: 0,
+        version: CURRENT_VERSION,
+    }
+}
+
+/// Array-backed storage that already contains the version record (what
+/// `Storage::new` produces on an empty back end).
+pub(crate) fn fresh_arr_storage() -> Storage<ArrStorage> {
+    let mut b = [0u8; 24];
+    b[8] = 8;
+    b[16] = 1;
+    raw_storage(ArrStorage::from_slice(&b))
+}
+
+//@ id=C04 tier=quick timeout=600 bounds="one value of 0..=3 symbolic bytes into an empty storage" desc="smoke: insert then read back the same bytes" kernel="Storage::insert_bytes,Storage::value_as_bytes"
+#[kani::proof]
+#[kani::stub(std::fmt::format, crate::verif_support::fmt_stub)]
+#[kani::stub(crate::DbError::new, crate::verif_support::dberror_new_stub)]
+#[kani::unwind(6)]
+fn c04_smoke_insert_read() {
+    let mut s = fresh_arr_storage();
+    let n: usize = kani::any();
+    kani::assume(n <= 3);
+    let data: [u8; 3] = kani::any();
+    let idx = ok(s.insert_bytes(&data[..n]));
+    let back = ok(s.value_as_bytes(idx));
+    assert!(back.len() == n, "length differs");
+    let mut i = 0;
+    while i < n {
+        assert!(back[i] == data[i], "byte differs");
+        i += 1;
+    }
+    kani::cover!(n == 3, "three bytes");
+    kani::cover!(true, "end of harness reachable");
+    std::mem::forget(back);
+    std::mem::forget(s);
+}
